@@ -86,7 +86,8 @@ def run(ctx):
             r = rby[v["id"]]
             ctx.fail({"why": "render: " + v["why"]}, f"run_render on a stalled pty, seed={r['seed']}: {v['why']}; {r['frames']} frames, {r['drops']} drops, markers {''.join('hl'[1 - m] for m in r['markers'])[:120]} {r['panic']}", {"render_session": {"seed": r["seed"]}})
         nrender = len(rrecs)
-        if rrecs and not any(r["drops"] for r in rrecs):
+        if rrecs and not any(r["drops"] for r in rrecs) and not ctx.failures:
+            # (on a tree that already fails elsewhere the sessions may break down before any drop: report the failures instead)
             raise lib.ToolError("vacuous render sessions: the drop policy never fired")
         ctx.cov["render_sessions"] = nrender
         ctx.cov["render_sessions_with_drops"] = sum(1 for r in rrecs if r["drops"])
